@@ -26,7 +26,7 @@ struct State
 enum { P_STOP_SAW_INSIDE = 0, P_BODY_AFTER_START, P_EXPECT_RAN, P_STOP_WHILE_RUNNING, P_REDUNDANT_START, P_REDUNDANT_STOP, P_DTOR_WHILE_RUNNING };
 const char *probe_names[] = {"stop_invoked_while_body_inside", "body_ran_after_start", "expect_progress_executed",
                              "stop_while_running", "redundant_start", "redundant_stop", "destroy_while_running", nullptr};
-const char *fault_names[] = {"spurious_wakeup", nullptr};
+const char *fault_names[] = {"spurious_wakeup", "clock_jump", "timed_wait_expired_while_peers_stalled", nullptr};
 
 void reset()
 {
